@@ -44,7 +44,10 @@ CLAIMED = {
             'model, where sets are lists ordered as the code orders them: the tie runs permuted twins and several PYTHONHASHSEEDs. ' + TIE, '§6 C07'),
     'C08': ('Lean 4 proof: contract evaluation points from the exact effect log; failure is the last effect (error-origin theorem) + correspondence',
             'evaluated_at_documented_points (the cond entries of the log are exactly the documented points interleaved with the code), '
-            'invariants_even_without_step, pre/post/invariant_failure_is_immediate. ' + TIE, '§6 C08'),
+            'invariants_even_without_step, pre/post/invariant_failure_is_immediate; for the modelled PythonEvaluator: shown_old_is_the_entry, '
+            'old_is_the_start_of_the_transition, old_is_the_entry_of_the_state (the store entry of an object holds the variables as they were when '
+            'its processing began), evaluating_conditions_changes_nothing and old_changes_only_when_entered (over any number of calls, returning or '
+            'raising, an entry changes only when the log shows the object entered / processed). ' + TIE, '§6 C08'),
     'C09': ('Lean 4 proof: two-run simulation (the contract-ignoring run follows the checking run step by step through all of execute_once) + relational frame: nothing evaluated, no ContractError when ignoring + correspondence',
             'ignoring_simulates_checking(_run): for every evaluator whose guards and code are blind to a relation eqv (for PythonEvaluator: equal up to the frozen '
             '__old__ contexts) and every run in which no condition fails or errs, the run ignoring contracts returns the same macro steps and reaches states with '
